@@ -24,5 +24,10 @@ def check(chk, fx):
     lexrules.iter_rule(chk, fx)
     lexrules.match(chk, fx)
     saferules.empty_guard(chk, fx)
+    # the value slice handed to a functor must be taken from the stack as it is when the functor runs: the order
+    # uncover-goto-invoke-erase-push of reduce and the lock-step of the two stacks (C02's ONCE / LOCK)
+    from . import c02
+    c02.once(chk, fx)
+    c02.lock(chk, fx)
     lexrules.lenw(chk, fx)
     idxrule.report(chk, fx, lambda q: q.startswith("ctpg::"), "whole header", 40)
